@@ -366,7 +366,7 @@ pub fn run(ctx: &Ctx) {
                 ctx.judge(Err(f));
             }
             let n = ctx.tier.pick(48u32, 640u32);
-            let case = (proptest::collection::vec((0u8..=14, any::<bool>(), any::<bool>(), 0u8..3), 1..24), proptest::sample::select(vec![20u32, 60, 150])).prop_map(|(items, window)| E2eCase { items, window });
+            let case = (proptest::collection::vec((0u8..=14, any::<bool>(), any::<bool>(), 0u8..3), 1..24), proptest::sample::select(vec![20u32, 60, 150]), prop_oneof![3 => Just(2u8), 1 => 9u8..=14]).prop_map(|(items, window, sources)| E2eCase { items, window, sources });
             (0..16u32).into_par_iter().for_each(|s| {
                 vcore::ev::run_prop_shrink(ctx, &format!("e2e-{s}"), n / 16, 16, case.clone(), |c| {
                     ctx.eval();
@@ -683,6 +683,8 @@ pub struct E2eCase {
     /// (index into the CLI frame pool, to source 0?, to source 1?, repeats)
     pub items: Vec<(u8, bool, bool, u8)>,
     pub window: u32,
+    /// number of Beast sources (receivers): 2, or 9-14 ("any number of receivers")
+    pub sources: u8,
 }
 
 pub fn e2e_scenario(c: &E2eCase) -> crate::e2e::Scenario {
@@ -691,6 +693,20 @@ pub fn e2e_scenario(c: &E2eCase) -> crate::e2e::Scenario {
     let mut sends = vec![];
     for (i, (f, a, b, rep)) in c.items.iter().enumerate() {
         let frame = if *f as usize % (big.len() + 1) == big.len() { bad.clone() } else { big[*f as usize % (big.len() + 1)].clone() };
+        if c.sources > 2 {
+            // many receivers: the frame reaches about two thirds of them at once, then a short pause
+            let mut n = 0;
+            for j in 0..c.sources as usize {
+                if (*f as usize * 31 + j * 7 + i) % 3 != 0 || (j == 0 && !*b) {
+                    sends.push(crate::e2e::Send { source: j, frame: frame.clone(), pause_ms: 0, cut: 0, clock_offset_s: None });
+                    n += 1;
+                }
+            }
+            if n > 0 {
+                sends.last_mut().unwrap().pause_ms = 1 + (*rep as u32 % 3);
+            }
+            continue;
+        }
         for r in 0..=(*rep % 3) {
             if *a || !*b {
                 sends.push(crate::e2e::Send { source: 0, frame: frame.clone(), pause_ms: (i as u32 + r as u32) % 3, cut: 0, clock_offset_s: None });
@@ -700,15 +716,16 @@ pub fn e2e_scenario(c: &E2eCase) -> crate::e2e::Scenario {
             }
         }
     }
-    crate::e2e::Scenario { references: vec![None, None], sends, df_filter: None, aircraft_filter: None, dedup_ms: c.window, update_position: false, with_file: false, via_config: false, split: 0, long_table: false, cli_dup: false, history_expire: None, track: vec![] }
+    crate::e2e::Scenario { references: vec![None; c.sources.max(2) as usize], sends, df_filter: None, aircraft_filter: None, dedup_ms: c.window, update_position: false, with_file: false, via_config: false, split: 0, long_table: false, cli_dup: false, history_expire: None, track: vec![], quiet: false }
 }
 
 pub fn judge_e2e(ctx: &Ctx, sc: &crate::e2e::Scenario, out: &crate::e2e::Outcome, rep: &Value) -> Check {
     let fail = |sig: &str, d: String| Failure::new(format!("c10:e2e:{sig}"), d, rep.clone());
     // receptions sent per frame and source
-    let mut sent: BTreeMap<String, [u64; 2]> = BTreeMap::new();
+    let nsrc = sc.references.len().max(1);
+    let mut sent: BTreeMap<String, Vec<u64>> = BTreeMap::new();
     for s in &sc.sends {
-        sent.entry(hex::encode(&s.frame)).or_insert([0, 0])[s.source % 2] += 1;
+        sent.entry(hex::encode(&s.frame)).or_insert_with(|| vec![0; nsrc])[s.source % nsrc] += 1;
     }
     let mut got: BTreeMap<String, BTreeMap<u64, u64>> = BTreeMap::new();
     let mut multi = false;
@@ -744,10 +761,10 @@ pub fn judge_e2e(ctx: &Ctx, sc: &crate::e2e::Scenario, out: &crate::e2e::Outcome
         want.sort();
         have.sort();
         if want != have {
-            return Err(fail(if have.iter().sum::<u64>() < want.iter().sum::<u64>() { "receptions-lost" } else { "receptions-invented-or-misattributed" }, format!("frame {f}: {:?} receptions were sent through the two sources, the records show {:?} per receiver", n, got.get(f))));
+            return Err(fail(if have.iter().sum::<u64>() < want.iter().sum::<u64>() { "receptions-lost" } else { "receptions-invented-or-misattributed" }, format!("frame {f}: {:?} receptions were sent through the {nsrc} sources, the records show {:?} per receiver", n, got.get(f))));
         }
     }
-    ctx.class("end-to-end scenario judged");
+    ctx.class(if nsrc > 2 { "end-to-end scenario judged (9-14 receivers)" } else { "end-to-end scenario judged" });
     if multi {
         ctx.nontrivial(h64(&("e2e", rep.to_string())));
     }
